@@ -231,6 +231,57 @@ def motif_abandoned(rng):
             "faults": {"items": {}, "flushes": {}, "ctx": {}}, "prio": gen_prio(rng, kinds)}
 
 
+def motif_exit_fault(rng):
+    """The pause() a context receives when its with-block is left raises; the task handles that
+    and goes on through further suspensions (the context must be gone for good), next to
+    sibling tasks and optionally inside / around other contexts."""
+    kinds = rng.randint(1, 2)
+
+    def items(m):
+        return [["y", ["item", rng.randint(0, kinds - 1), rng.randint(0, 5)]] for _ in range(m)]
+    m = rng.randint(0, 2)
+    nouter = rng.randint(0, 1)       # contexts of the victim around the try
+    ninner = rng.randint(0, 1)       # contexts inside the faulted one
+    body = items(m)
+    for _ in range(ninner):
+        body = [["with", ["ctx"], body]] + items(rng.randint(0, 1))
+        # (yields after the inner block still happen inside the faulted context)
+    npause = sum(1 for st in flat_steps(body) if st[0] == "y")
+    victim = [["try", [["with", ["ctx"], body]], rng.choice(["all", "sim"]), items(rng.randint(0, 1))]] + items(rng.randint(1, 3))
+    for _ in range(nouter):
+        victim = [["with", ["ctx"], victim]]
+    root_ctx = rng.random() < 0.4
+    sib = items(rng.randint(1, 3))
+    if rng.random() < 0.4:
+        sib = [["with", ["ctx"], sib]]
+    order = rng.random() < 0.5
+    calls = [["call", 1, []], ["call", 2, []]] if order else [["call", 2, []], ["call", 1, []]]
+    root = [["y", [rng.choice(["t", "l"]), calls]]] + items(rng.randint(0, 1))
+    if root_ctx:
+        root = [["with", ["ctx"], root]]
+    templates = [{"kind": "fn", "steps": root}, {"kind": "fn", "steps": victim}, {"kind": "fn", "steps": sib}]
+    # creation order of contexts: root's, then (in start order) the sibling's or the victim's
+    idx = (1 if root_ctx else 0) + nouter + 1
+    if not order and sib and sib[0][0] == "with":
+        idx += 1
+    return {"templates": templates, "root": {"tmpl": 0, "conv": rng.choice(["call", "value", "wrapped"])},
+            "kinds": kinds, "svs": 1, "yield_only": True, "reentry": False, "ctx_fault": True,
+            "faults": {"items": {}, "flushes": {}, "ctx": {"#%d" % idx: ["pause", npause + 1]}}, "prio": gen_prio(rng, kinds)}
+
+
+def flat_steps(steps):
+    for st in steps:
+        yield st
+        if st[0] == "with":
+            for x in flat_steps(st[2]):
+                yield x
+        elif st[0] == "try":
+            for x in flat_steps(st[1]):
+                yield x
+            for x in flat_steps(st[3]):
+                yield x
+
+
 def motif_dup_ref(rng):
     """One yield that names the same not yet started task twice, with other fresh tasks around
     and between the occurrences, in nested lists/tuples (start order, C03)."""
